@@ -5,7 +5,11 @@ EXEC_RULE = ("generated acyclic programs (2-7 tasks, deps/cmds/nested calls/defe
              "scheduler (every write parks; release order from the PRNG; N in {unlimited,1,2,3}); the observed "
              "arrival/release sequence is (a) fed to the property's monitor in Coq and (b) replayed in the Coq "
              "machine (GOMAXPROCS=1 runs): agree = accepted by the model and same final result. "
-             "non-trivial = more than 4 observations; distinct = distinct (program, release order)")
+             "non-trivial = more than 4 observations; distinct = distinct (program, release order). "
+             "Besides the generated programs: directed templates (round-robin), cyclic programs run through the real "
+             "CLI in a child process (judged on exit class / task-start count / blockedness), and small hand-written "
+             "scenario families judged on the real Executor against the outcome written next to each scenario "
+             "(guards, whenkeys, prompts, callvars, fanout) - these are correspondence runs, not proof")
 
 EXEC_TRUSTED = ["modelled, not verified: mvdan/sh (a command is a probe write plus an exit status), text/template, "
                 "the Go scheduler (the model allows every interleaving of micro-steps), errgroup/context (first "
